@@ -191,6 +191,7 @@ CASES = [
     ("m-c02-313-hasarg", "C02", "fire", "xdis/cross_dis.py", "    if opc.version_tuple >= (3, 13):\n        # From 3.13 on the opcode number alone does not tell: WITH_EXCEPT_START sits\n        # at the HAVE_ARGUMENT threshold and takes no operand. dis consults hasarg.\n        return opcode in opc.hasarg\n", "", "WITH_EXCEPT_START:has_arg"),
     ("m-c18-dropbox-global-patch", "C18", "fire", "xdis/dropbox/decrypt25.py", "    um.dispatch = dict(um.dispatch)\n", "", "write:class:xdis.marsh._FastUnmarshaller.dispatch"),
     ("s-c18-dropbox-copy-method", "C18", "silent", "xdis/dropbox/decrypt25.py", "    um.dispatch = dict(um.dispatch)\n", "    um.dispatch = um.dispatch.copy()\n", ""),
+    ("m-c20-std-dup-lines", "C20", "fire", "xdis/std.py", "                    # dis reports a line only where it changes\n                    dup_lines=False,\n", "", "dup_lines=False"),
     # ---------------- whole-package reformat, one case per property
     ("s-c01-reformat", "C01", "silent", "*REFORMAT*", "", "", ""),
     ("s-c02-reformat", "C02", "silent", "*REFORMAT*", "", "", ""),
